@@ -23,8 +23,10 @@ MANIFEST = dict(
          'declaration lists of the six invocations on generated specs (declaration scanners for Swift and Objective-C). '
          'Observed by testing, not proved: completion without exception, lexical well-formedness of every emitted '
          'file (Swift and Objective-C lexers: nested comments, strings with escapes and interpolation, character '
-         'literals, balanced brackets), exactly-once / coverage / closure on the real output against an independent '
-         'reading of the IR.',
+         'literals, balanced brackets, conditional directives closed), exactly-once / coverage / closure on the real '
+         'output against an independent reading of the IR, agreement of header and implementation selectors of every '
+         'Objective-C class; inputs: random specs, hand seeds, and a deterministic grid of every type shape in every '
+         'position under an option grid (auth types, obj_c_types -e, three sets of client tables).',
     note='Trusted: Lean kernel, translator, the scanners and generators of harness/suites/decl_swift.py, jinja2. Not '
          'modelled: bodies of Objective-C .m files (names only), documentation comments, validators, literal default '
          'values, --documentation (needs the caller\'s ../Format/jazzy.json). Names that collide under the backend\'s '
@@ -82,7 +84,8 @@ def run(ck):
         'the API description comes from the frontend: names unique per namespace, (route name, version) unique, '
         'every referenced user type registered in its namespace (ApiWF, evaluated by the model on every case)',
         'client backends are given the option shapes of the SDK build scripts (client-args per style with an upload / '
-        'download_file entry, style-to-request for every key, -w for obj_c_client)',
+        'download_file entry, the type of the last extra argument of a variant an identifier, style-to-request for '
+        'every key, -w for obj_c_client)',
     ])
     ck.note('not judged: names that collide under the backend\'s own naming scheme (precondition nameInjective); '
             'whether the output compiles; --documentation')
